@@ -493,7 +493,7 @@ func (r *rwRT) coverShape(fn *ssa.Function, pos, kind string, in0 *astInput) {
 		// RW.BLOCKSTATE (typestate of the output blocks): block.push asserts that the combine check has run
 		// since the previous push. A block handed back by the recursion (rewriteStmt / rewriteStmts may have
 		// pushed into it, or return another block) is unchecked until combineIfNecessary / markCombined.
-		{
+		if markName := r.blockMarkMethod(); markName != "" {
 			unchecked := map[string]bool{}
 			for _, e := range o.St.Events {
 				if e.Kind != "call" || e.Fn == nil || !inRw(e.Fn) || len(e.Args) == 0 {
@@ -510,7 +510,7 @@ func (r *rwRT) coverShape(fn *ssa.Function, pos, kind string, in0 *astInput) {
 							unchecked[argLabel(e.Ret)] = true
 						}
 					}
-				case "markCombined":
+				case markName:
 					delete(unchecked, argLabel(e.Args[0]))
 				case "push", "pushReturn":
 					if _, isSym := unwrapDyn(e.Args[0]).(Sym); !isSym {
